@@ -154,7 +154,7 @@ def main():
     fails, stats, recs, nontrivial = [], {}, [], set()
     pairs = [(x, y) for x in C.COLLIDER_TYPES for y in C.COLLIDER_TYPES]
     if a.tier == "quick":
-        pf = dict(coincident=2, axis_offset=6, support_touch_lattice=6, lattice_offset=4, random=6, support_touch_random=6, far=2)
+        pf = dict(coincident=2, axis_offset=5, support_touch_lattice=5, lattice_offset=3, random=5, support_touch_random=5, far=1)
     else:
         pf = dict(coincident=8, axis_offset=48, support_touch_lattice=48, lattice_offset=32, random=48, support_touch_random=48, far=8)
     classes = c01._scale_classes(a.tier, None) + [("rand", "rand")]
